@@ -588,7 +588,6 @@ Section Complete.
 
   (* ---------------------------------------------------------------- the whole pipeline, no transform *)
   Hypothesis Hcf : collision_free H c scanned.
-  Hypothesis HK : ~ K11 c scanned.
   Hypothesis Htr : transform c = false.
   Hypothesis Hskip : skip_content c = false.
 
@@ -596,7 +595,7 @@ Section Complete.
   Let g2 := group_by_prefix o c n P g1.
   Let S := suffix_len_of c (map sort_group_by_id g2).
   Let thr := suffix_threshold_of c (map sort_group_by_id g2).
-  Let g3 := rehash n StSuffix (pre_suffix thr) (matches c) (hf_suffix o n S) (map sort_group_by_id g2).
+  Let g3 := rehash n StSuffix (pre_suffix thr S) (matches c) (hf_suffix o n S) (map sort_group_by_id g2).
   Let raw4 := rehash_raw n StContents (pre_contents P) (hf_contents o n) (map sort_group_by_id g3).
   Let g4 := filter (matches_strictly c) raw4.
 
@@ -613,7 +612,7 @@ Section Complete.
   Lemma g3_inv : invA g3 /\ invB g3 /\ invL g3 /\ invC g3.
   Proof.
     destruct g2_inv as (A & B & L & C).
-    apply (stage_permissive StSuffix (pre_suffix thr) (hf_suffix o n S) (fun f old => hxor old (Hsfx H S f)) g2); auto.
+    apply (stage_permissive StSuffix (pre_suffix thr S) (hf_suffix o n S) (fun f old => hxor old (Hsfx H S f)) g2); auto.
     - apply nofail_suffix.
     - intros f f' old Hf Hf' E. f_equal. apply class_suffix; auto.
   Qed.
@@ -624,21 +623,14 @@ Section Complete.
     intros g0 Hg0. apply (early_gbase c scanned g0 Hg0).
   Qed.
   Lemma g3_I2 g : In g g3 -> I2 H c scanned P S g.
-  Proof.
-    intros Hg. apply (suffix_stage H T c n scanned Hnd Hids P S thr g2 g); auto.
-    - apply g2_I1.
-    - intros ga fa Hga Hfa. unfold thr, suffix_threshold_of. apply max_dev_prop_ge.
-      unfold all_files. apply in_flat_map. eauto.
-  Qed.
+  Proof. intros Hg. apply (suffix_stage H T c n scanned Hnd Hids P S thr g2 g); auto. apply g2_I1. Qed.
   Lemma raw4_I3 g : In g raw4 -> I3 H c scanned P S g.
   Proof. intros Hg. apply (contents_stage_raw H T c n scanned Hnd Hids P S g3 g); auto. apply g3_I2. Qed.
 
   Lemma raw4_same_data g f f' : In g raw4 -> In f (gfiles g) -> In f' (gfiles g) -> fdata f = fdata f'.
   Proof.
     intros Hg Hf Hf'.
-    destruct (prefix_len_of_facts c g1) as [HP0 HP1].
-    destruct (suffix_len_of_facts c (map sort_group_by_id g2)) as (HS0 & HS1 & HSc).
-    apply (I3_sound H c scanned Hids Hlen Hcf P S g HP0 HP1 HS0 HS1 HSc HK (raw4_I3 g Hg) f f' Hf Hf').
+    apply (I3_sound H c scanned Hids Hlen Hcf P S g (suffix_len_of_cands c _) (raw4_I3 g Hg) f f' Hf Hf').
   Qed.
 
   Lemma raw4_inv : invA raw4 /\ invB raw4 /\ invL raw4.
